@@ -1,6 +1,8 @@
 #!/bin/bash
-# thorough tier: quick rules with the repo-wide sweeps + second build configuration + mutation self-test
+# thorough tier: (1) mutation self-test of the property's rules on scratch copies of the CURRENT tree,
+# (2) the rule set itself in thorough mode (repo-wide sweeps, second build configuration GOARCH=386).
 set -u
 HERE=$(cd "$(dirname "$0")/.." && pwd)
 PROP=$1; REPO=${2:-/repo}
+"$HERE/scripts/mutants.py" "$PROP" --repo "$REPO" --jobs 8
 exec "$HERE/bin/einocheck" -prop "$PROP" -tier thorough -repo "$REPO" -verif "$HERE"
